@@ -755,6 +755,36 @@ fn boundary_targets() -> Vec<String> {
     for s in ["/?token={T}", "/profile.json?token={T}", "/symbolicate/v5?token={T}", "/prof-x.json.gz", "/prof-x.json", "/{T}/prof-x.json.gz", "/{T}/prof-x.json"] {
         v.push(s.to_string());
     }
+    // bytes httparse rejects (DEL) although `http::Uri` would take them; non-ASCII; characters `Uri` rejects
+    for s in ["/\u{7f}", "/{T}/\u{7f}", "/{T}\u{7f}/profile.json", "/\u{e9}", "/{T}/\u{e9}", "/{T}/profile.json?\u{e9}", "/{T}/<", "/{T}/profile.json?<", "/{T}/profile.json#<", "/<{T}/profile.json", "/{T}/\"", "/{T}/`"] {
+        v.push(s.to_string());
+    }
+    // absolute-form with other schemes, userinfo, ports, IPv6 literals; what the URI parser rejects
+    for s in [
+        "https://h.example/{T}/profile.json",
+        "HTTPS://h.example/{T}/symbolicate/v5",
+        "ftp://h/{T}/profile.json",
+        "x+y.z-w~://u:p@h:80/{T}/profile.json",
+        "http://[::1]:8080/{T}/profile.json",
+        "http://u%41@h/{T}/profile.json",
+        "://h/{T}/profile.json",
+        "https://{T}/profile.json",
+        "https://h.example//{T}/profile.json",
+        "https://h.example/{U}/profile.json",
+        "https://h.example?/{T}/profile.json",
+        "http:///{T}/profile.json",
+        "http://h%41/{T}/profile.json",
+        "http://h@/{T}/profile.json",
+        "http://a:b:c/{T}/profile.json",
+        "http://[::1/{T}/profile.json",
+        "h:80/{T}/profile.json",
+        "h:80",
+        "//h/{T}/profile.json",
+        "http:/{T}/profile.json",
+        "mailto:{T}",
+    ] {
+        v.push(s.to_string());
+    }
     // decorations in front of the token
     for pre in ["//", "/./", "/../", "/x/../", "/x/", "/%2f", "/%2F", "/%2e/", "/;/", "/\\", "/@", "/:"] {
         v.push(format!("{pre}{{T}}/profile.json"));
@@ -1119,7 +1149,8 @@ impl Prop for C18 {
             }
         }
         // request-targets longer than 8 KiB
-        let long: String = "a".repeat(9000);
+        // (`e` is not in the token alphabet: a partial token followed by it is never the token)
+        let long: String = "e".repeat(9000);
         for t in [format!("/{long}"), format!("/{long}/{{T}}/profile.json"), format!("/{{T}}/{long}"), format!("/?{long}{{T}}"), format!("/{{T:0:38}}{long}")] {
             for m in ["GET", "POST", "OPTIONS"] {
                 v.push(Case { name: format!("long-{m}-{}", v.len()), ops: vec![req_line("j", m, &t, HEADER_SETS[3], default_body(m))] });
